@@ -785,9 +785,18 @@ func init() {
 					return map[string]any{"bad": err.Error()}
 				}
 			}
-			want, wantErr := c12PhysicalPath(filepath.Join(root, a.Wd, a.Path))
+			written := a.Path // the develop.watch path as written; "$ROOT/…" = written absolute (possibly not clean)
+			full := filepath.Join(root, a.Wd, a.Path)
+			writtenAbs := strings.HasPrefix(a.Path, "$ROOT")
+			if writtenAbs {
+				written = root + strings.TrimPrefix(a.Path, "$ROOT")
+				full = written
+			}
+			want, wantErr := c12PhysicalPath(full)
 			scrub := func(x string) string { return strings.ReplaceAll(x, root, "$ROOT") }
 			res := map[string]any{"want": scrub(want), "want_err": wantErr != nil}
+			unclean := writtenAbs && filepath.Clean(written) != written
+			res["unclean"] = unclean
 			// the link table of the Lean model (Model/PathsSymlink.lean): every symbolic link at its physical location
 			// (Walk does not follow links) with what EvalSymlinks says about it
 			comps := func(p string) []string { return strings.Split(strings.TrimPrefix(filepath.Clean(p), "/"), "/") }
@@ -803,8 +812,8 @@ func init() {
 				return nil
 			})
 			res["links"] = links
-			res["path"] = comps(filepath.Join(root, a.Wd, a.Path))
-			t, get := attrTree("develop.watch.path", a.Path)
+			res["path"] = comps(full)
+			t, get := attrTree("develop.watch.path", written)
 			m1, bad := c12Resolve(t, filepath.Join(root, a.Wd), nil)
 			if bad != nil {
 				res["first_err"] = bad
@@ -813,6 +822,13 @@ func init() {
 			f, _ := get(m1).(string)
 			res["first"] = scrub(f)
 			res["first_raw"] = f
+			if unclean {
+				// what the answer denotes: an absolute path written with "." / ".." / "//" may be left as written or
+				// resolved, but it must still name the same file
+				if ph, err := c12PhysicalPath(f); err == nil {
+					res["first_phys"] = scrub(ph)
+				}
+			}
 			m2, bad := c12Resolve(core.DeepCopyVal(any(m1)).(map[string]any), filepath.Join(root, a.Wd), nil)
 			if bad != nil {
 				res["second_err"] = bad
@@ -845,13 +861,15 @@ func init() {
 					FirstErr json.RawMessage `json:"first_err"`
 					Path     []string        `json:"path"`
 					Bad      string          `json:"bad"`
+					Unclean  bool            `json:"unclean"`
 				}
 				var d struct {
 					Ok  []string `json:"ok"`
 					Err bool     `json:"err"`
 					Bad string   `json:"bad"`
 				}
-				if json.Unmarshal(real, &rr) == nil && rr.Bad == "" && rr.Path != nil && json.Unmarshal(drv, &d) == nil {
+				// (an absolute path that is not clean is outside the model: Sym.resolveStr works on the cleaned components)
+				if json.Unmarshal(real, &rr) == nil && rr.Bad == "" && rr.Path != nil && !rr.Unclean && json.Unmarshal(drv, &d) == nil {
 					model := "/" + strings.Join(d.Ok, "/")
 					switch {
 					case d.Bad != "":
@@ -872,10 +890,24 @@ func init() {
 				FirstErr  json.RawMessage `json:"first_err"`
 				SecondErr json.RawMessage `json:"second_err"`
 				Bad       string          `json:"bad"`
+				Unclean   bool            `json:"unclean"`
+				FirstPhys *string         `json:"first_phys"`
 			}
 			json.Unmarshal(real, &r)
 			if r.Bad != "" {
 				return core.Skip(r.Bad)
+			}
+			if r.Unclean && !r.WantErr {
+				// written absolute, not clean: "absolute paths are left as written" or resolved — either way the same file
+				switch {
+				case r.First == nil:
+					return core.Fail("symlink:"+a.Name+":error", fmt.Sprintf("watch path %q: resolution fails (%s), expected a path for %s", a.Path, r.FirstErr, r.Want))
+				case r.FirstPhys == nil || *r.FirstPhys != r.Want:
+					return core.Fail("symlink-unclean:names-another-file", fmt.Sprintf("absolute watch path %q (physically %s) is rewritten to %s, which names %v (%s)", a.Path, r.Want, *r.First, r.FirstPhys, a.Name))
+				case r.Second == nil || *r.Second != *r.First:
+					return core.Fail("nonidempotent:develop.watch:"+a.Name, fmt.Sprintf("watch path %q resolves to %s, resolving again gives %v %s", a.Path, *r.First, r.Second, r.SecondErr))
+				}
+				return nil
 			}
 			if r.WantErr {
 				// a dangling link or a link loop: an error is the right answer (no crash, see above)
@@ -1139,6 +1171,14 @@ var c12SymlinkCases = []symlinkArgs{
 	{Name: "last-component", Dirs: []string{"p/real"}, Links: [][]string{{"p/link", "real"}}, Wd: "p", Path: "link"},
 	{Name: "outside-wd", Dirs: []string{"o/real/s", "p"}, Links: [][]string{{"o/link", "real"}}, Wd: "p", Path: "../o/link/s"},
 	{Name: "wd-is-link", Dirs: []string{"real/s"}, Links: [][]string{{"p", "real"}}, Wd: "p", Path: "s/x"},
+	// written absolute and not clean (round 5): the clean spelling of the link occurs as plain text further up
+	{Name: "abs-dotdot-prefix", Dirs: []string{"t/y", "lx"}, Links: [][]string{{"l", "$ROOT/t"}}, Wd: ".", Path: "$ROOT/lx/../l/y"},
+	{Name: "abs-dotdot-sibling", Dirs: []string{"data/app/src", "srv/app-compose"}, Links: [][]string{{"srv/app", "$ROOT/data/app"}}, Wd: "srv/app-compose", Path: "$ROOT/srv/app-compose/../app/src"},
+	{Name: "abs-dotdot", Dirs: []string{"t/y", "a"}, Links: [][]string{{"l", "$ROOT/t"}}, Wd: ".", Path: "$ROOT/a/../l/y"},
+	{Name: "abs-dot", Dirs: []string{"t/y"}, Links: [][]string{{"l", "$ROOT/t"}}, Wd: ".", Path: "$ROOT/./l/y"},
+	{Name: "abs-double-slash", Dirs: []string{"t/y"}, Links: [][]string{{"l", "$ROOT/t"}}, Wd: ".", Path: "$ROOT//l/y"},
+	{Name: "abs-trailing-slash", Dirs: []string{"t/y"}, Links: [][]string{{"l", "$ROOT/t"}}, Wd: ".", Path: "$ROOT/l/y/"},
+	{Name: "abs-clean", Dirs: []string{"t/y"}, Links: [][]string{{"l", "$ROOT/t"}}, Wd: ".", Path: "$ROOT/l/y"},
 	{Name: "dangling", Dirs: []string{"p"}, Links: [][]string{{"p/link", "missing"}}, Wd: "p", Path: "link/x"},
 	{Name: "loop", Dirs: []string{"p"}, Links: [][]string{{"p/a", "b"}, {"p/b", "a"}}, Wd: "p", Path: "a/x"},
 }
@@ -1520,6 +1560,9 @@ func runC12(ctx *core.Ctx) {
 	// round 5: the same link trees, the function called directly — on the path as written (relative) with the process in
 	// the project directory, in its parent and in a sibling, and on the absolute clean path
 	symstr := func(c symlinkArgs, kind string) {
+		if strings.HasPrefix(c.Path, "$ROOT") {
+			return // written absolute: the c12.symlink stream
+		}
 		for _, wd := range []string{c.Wd, filepath.Dir(c.Wd), "."} {
 			r := c
 			r.Wd = wd
@@ -1569,6 +1612,16 @@ func runC12(ctx *core.Ctx) {
 		c.Path = pick(names) + "/" + pick(names) + "/" + pick([]string{"x", "a", "b"})
 		ctx.Add("c12.symlink", c)
 		ctx.Count("symlink:random")
+		if i%2 == 0 {
+			// the same tree, the path written absolute with a detour through a name that starts like another one
+			u := c
+			u.Name = "random-abs-unclean"
+			first := pick(names)
+			u.Dirs = append(append([]string{}, c.Dirs...), "p/"+first+"x")
+			u.Path = "$ROOT/p/" + first + "x/../" + pick([]string{first, pick(names)}) + "/" + pick(names) + pick([]string{"", "/.", "//x"})
+			ctx.Add("c12.symlink", u)
+			ctx.Count("symlink:random-abs-unclean")
+		}
 		if i%3 == 0 {
 			symstr(c, "random")
 		}
